@@ -40,8 +40,11 @@ pub enum Cmd {
 pub enum Class {
     Valid(Cmd),
     Invalid,
-    /// complete command followed by other text, `exit`, upper-case radix prefix, exotic floats, huge counts
+    /// `exit`, upper-case radix prefix, exotic floats, huge counts, load/next/quit followed by other text
     Unconstrained,
+    /// a complete set/unset/show/register command followed by other text: not a documented command, so it
+    /// is either rejected with a notification (machine untouched) or executed as exactly that command
+    Either(Cmd),
 }
 
 fn is_ws(c: char) -> bool {
@@ -103,8 +106,33 @@ fn num(s: &str) -> Num<'_> {
 fn finish(cmd: Cmd, rest: &str, force_unconstrained: bool) -> Class {
     if skip_ws(rest).is_empty() && !force_unconstrained {
         Class::Valid(cmd)
+    } else if !force_unconstrained && !matches!(cmd, Cmd::Load(_) | Cmd::Next(_) | Cmd::Quit) {
+        Class::Either(cmd)
     } else {
         Class::Unconstrained
+    }
+}
+
+/// the commands without a precondition: applied to the shadow machine
+fn apply_simple(shadow: &mut Machine, shows_memory: &mut bool, cmd: &Cmd) {
+    match cmd {
+        Cmd::Input(i, v) => match i {
+            0 => shadow.set_input_fc(*v),
+            1 => shadow.set_input_fd(*v),
+            2 => shadow.set_input_fe(*v),
+            _ => shadow.set_input_ff(*v),
+        },
+        Cmd::Irg(v) => shadow.set_digital_input1(*v),
+        Cmd::Temp(v) => shadow.set_temp(*v),
+        Cmd::I1(v) => shadow.set_analog_input1(*v),
+        Cmd::I2(v) => shadow.set_analog_input2(*v),
+        Cmd::J(0, v) => shadow.set_jumper1(*v),
+        Cmd::J(_, v) => shadow.set_jumper2(*v),
+        Cmd::Uio(0, v) => shadow.set_universal_input_output1(*v),
+        Cmd::Uio(1, v) => shadow.set_universal_input_output2(*v),
+        Cmd::Uio(_, v) => shadow.set_universal_input_output3(*v),
+        Cmd::Show(mem) => *shows_memory = *mem,
+        Cmd::Load(_) | Cmd::Next(_) | Cmd::Quit => {}
     }
 }
 
@@ -486,6 +514,7 @@ pub struct Stats {
     pub valid_cmds: u64,
     pub invalid_cmds: u64,
     pub unconstrained_cmds: u64,
+    pub either_cmds: u64,
     pub loads_ok: u64,
     pub multibyte_or_tab: bool,
     pub dismissed: u64,
@@ -515,6 +544,7 @@ fn one_key(s: &mut Session, ev: &Ev, w: u16, h: u16, st: &mut Stats) -> Result<(
     let mut expect_notification: Option<bool> = Some(false);
     let mut resync = false;
     let mut expect_input_unchanged = false;
+    let mut either: Option<Cmd> = None;
     if s.notification {
         // any key only dismisses the notification
         expect_input_unchanged = true;
@@ -543,6 +573,11 @@ fn one_key(s: &mut Session, ev: &Ev, w: u16, h: u16, st: &mut Stats) -> Result<(
                         Class::Unconstrained => {
                             st.unconstrained_cmds += 1;
                             resync = true;
+                            expect_notification = None;
+                        }
+                        Class::Either(cmd) => {
+                            st.either_cmds += 1;
+                            either = Some(cmd);
                             expect_notification = None;
                         }
                         Class::Valid(cmd) => {
@@ -608,6 +643,12 @@ fn one_key(s: &mut Session, ev: &Ev, w: u16, h: u16, st: &mut Stats) -> Result<(
     }
     if rep.quit {
         return Ok(());
+    }
+    if let Some(cmd) = &either {
+        // rejected (notification, machine untouched) or executed as exactly that command
+        if rep.notification.is_none() {
+            apply_simple(&mut s.shadow, &mut s.shows_memory, cmd);
+        }
     }
     if s.autorun {
         for _ in 0..AUTORUN_CYCLES {
@@ -782,7 +823,9 @@ pub fn run(ctx: &Ctx) -> Evidence {
         ("IRG = 1", Class::Invalid),
         ("set TEMP = 2.5", Class::Valid(Cmd::Temp(2.5))),
         ("unset UIO2", Class::Valid(Cmd::Uio(1, false))),
-        ("set J1 = true", Class::Unconstrained),
+        ("set J1 = true", Class::Either(Cmd::J(0, true))),
+        ("FC = 12 xyz", Class::Either(Cmd::Input(0, 12))),
+        ("load a.asm", Class::Valid(Cmd::Load("a.asm".into()))),
         ("show memory", Class::Valid(Cmd::Show(true))),
         ("next", Class::Valid(Cmd::Next(1))),
         ("next 17", Class::Valid(Cmd::Next(17))),
@@ -808,6 +851,7 @@ pub fn run(ctx: &Ctx) -> Evidence {
             *e.classes.entry("commands:valid".into()).or_insert(0) += st.valid_cmds;
             *e.classes.entry("commands:invalid(rejected)".into()).or_insert(0) += st.invalid_cmds;
             *e.classes.entry("commands:unconstrained".into()).or_insert(0) += st.unconstrained_cmds;
+            *e.classes.entry("commands:command-plus-trailing-text(rejected-or-exact)".into()).or_insert(0) += st.either_cmds;
             *e.classes.entry("commands:load-succeeded".into()).or_insert(0) += st.loads_ok;
             *e.classes.entry("notifications-dismissed".into()).or_insert(0) += st.dismissed;
             *e.classes.entry("enter-skipped(huge next / known crash shape)".into()).or_insert(0) += st.skipped_enter;
